@@ -195,12 +195,28 @@ def run_strip(spec, rec: Recorder):
         for op in ("unprotect", "protect"):
             for api in ("sync", "async"):
                 for form in ("seed", "public"):
-                    for variant in ("evil-envelope", "same-stub", "with-pad", "level-1", "level-2", "level-4", "level-5", "type-0", "prepend-unsealed-fragment", "prepend-unsealed-fragment-no-hresult", "append-unsealed-fragment", "stripped-bind-ack"):
+                    for variant in ("evil-envelope", "same-stub", "with-pad", "level-1", "level-2", "level-4", "level-5", "type-0", "prepend-unsealed-fragment", "prepend-unsealed-fragment-no-hresult", "append-unsealed-fragment", "stripped-bind-ack", "fragmented-legit", "fragmented-evil-tail", "fragmented-evil-tail-3", "fragmented-evil-middle"):
 
                         def tamper(conn, out, info, form=form, variant=variant):
                             req = [e for e in conn.events if e["event"] == "request"][-1]["getkey"]
                             gk = dict(target_sd=req["target_sd"], root_key_id=req["root_key_id"], l0=req["l0"], l1=req["l1"], l2=req["l2"])
                             stub = w.evil_stub(gk, form) if variant != "same-stub" else info["stub"]
+                            if variant.startswith("fragmented-"):
+                                # the DC legitimately split its reply into individually sealed fragments (what a small
+                                # max_recv_frag in the unprotected bind makes it do).  The attacker lets authentic fragments that
+                                # carry only public data through and substitutes cleartext fragments (no security trailer) for
+                                # the ones carrying key material: the envelope header of the attacker's own reply is
+                                # byte-identical, so the pieces join up into the attacker's envelope
+                                frags, pts = info.get("fragments"), info.get("cuts")
+                                if not frags or variant == "fragmented-legit":
+                                    return out
+                                res = list(frags)
+                                evil_idx = [len(frags) - 1] if "tail" in variant else [len(frags) // 2]
+                                for k in evil_idx:
+                                    piece = stub[pts[k] :] if k == len(frags) - 1 else stub[pts[k] : pts[k + 1]]
+                                    fl = (rrpc.PFC_FIRST if k == 0 else 0) | (rrpc.PFC_LAST if k == len(frags) - 1 else 0)
+                                    res[k] = rrpc.encode(dict(ptype=rrpc.RESPONSE, flags=fl, call_id=info["request"]["call_id"], auth=None, alloc_hint=len(piece), ctx_id=info["request"]["ctx_id"], cancel_count=0, stub=piece))
+                                return b"".join(res)
                             if variant == "with-pad":
                                 stub += b"\x00" * (-len(stub) % 16)
                             if variant.startswith(("prepend-", "append-")):
@@ -241,10 +257,16 @@ def run_strip(spec, rec: Recorder):
                                 return rrpc.encode(m)
 
                             w.cfg.tamper_bind = strip_ack
+                        if variant.startswith("fragmented-"):
+                            # cut inside the public envelope header (first 64 bytes are NDR header, version, magic, flags, position, root key id)
+                            w.cfg.reply_fragment_cuts = {"fragmented-legit": [48, 200], "fragmented-evil-tail": [64], "fragmented-evil-tail-3": [32, 64], "fragmented-evil-middle": [64, 100000]}[variant]
+                            if variant == "fragmented-evil-middle":
+                                w.cfg.reply_fragment_cuts = [64, 64 + 8 * 40]
                         try:
                             out = w.call(op, api, tamper)
                         finally:
                             w.cfg.tamper_bind = None
+                            w.cfg.reply_fragment_cuts = None
                         ev = [e for c in w.core.transcripts[-1:] for e in c.events if e["event"] == "request"]
                         if ev and ev[-1].get("unsealed_on_auth_connection") and ev[-1].get("getkey") is not None:
                             rec.violation("request-sent-unsealed", f"{op}/{api}: after {variant} the client sent the GetKey request in clear on an authenticated connection", {"class": "strip", "op": op, "api": api, "variant": variant, "security": w.sec})
@@ -252,7 +274,12 @@ def run_strip(spec, rec: Recorder):
                         rec.count("strip_cases")
                         # an extra unauthenticated PDU *after* the authentic reply is never read: succeeding with the authentic
                         # result is correct there; in every other variant the authentic reply never reaches the client intact
-                        w.judge(op, out, wit, "trailing unauthenticated PDU" if variant.startswith("append-") else "strip")
+                        if variant == "fragmented-legit":
+                            # nothing was altered: a client without fragment support fails, one with it must get the right result
+                            rec.count("legit_fragmented_replies")
+                            w.judge(op, out, wit, "legitimately fragmented reply")
+                        else:
+                            w.judge(op, out, wit, "trailing unauthenticated PDU" if variant.startswith("append-") else "strip")
                         rec.case(("strip", op, api, form, variant, w.sec), sample=wit if (op, api, form, variant) == ("protect", "sync", "seed", "evil-envelope") else None)
     finally:
         w.close()
